@@ -62,7 +62,17 @@ def reduce_axes(it, v, axes, node, how):
     kinds = [v.sh[a] for a in ax]
     rest = tuple(k for i, k in enumerate(v.sh) if i not in ax)
     out = v.copy(sh=rest, cval=None, count_of=None, index_of=None)
+    if v.sw == 1 and how == "sum":
+        out.sw = "N"
     for k in kinds:
+        if k == "B" and it.c.track_s and v.is_numlike and not v.wild:
+            # a reduction over the block axis of stacked per-block values
+            if how == "int" and v.part:
+                it.violation("EXT.D4", node, f"per-block values of type {fmt(v)} are averaged over the blocks: blocks of unequal size get equal weight, so the result is not the whole-data quantity and depends on the chunking")
+            elif how == "sum" and v.s == 0:
+                it.violation("EXT.D4", node, f"per-block values of type {fmt(v)} are summed over the blocks although they are intensive (per-block averages)")
+            out.part = False
+            continue
         if how == "sum":
             if k == "N" and it.c.track_s:
                 out.s = out.s + 1
@@ -296,6 +306,12 @@ def array_method(it, base, m, e, env, argv, kw):
         return base.copy(sh=None, cval=None)
     if m == "to_delayed":
         return V("list", axis="B", elem=base)
+    if m == "map_blocks" and argv:
+        fv = argv[0]
+        tgt = it.P.resolve_pkg_name(fv.note) if fv.k == "func" and fv.note else None
+        if tgt is not None and hasattr(tgt, "node"):
+            return it.call_repo(tgt, [base], {}, e)
+        return unk("map_blocks with an unresolved function")
     if m == "dot":
         return it.matmul(base, argv[0], e) if argv else unk()
     if m == "fill":
@@ -401,6 +417,8 @@ def numpy_call(it, fn, d, e, env, argv, kw, args):
             r = V("num", a0.u, a0.s, a0.sh)
             r.naive_exp = a0.u != ZERO
             return r
+        if a0.is_numlike and a0.note == "shared-shift":
+            it.violation("DIM.LOGDOM", e, "the log-densities of a whole block of samples are shifted by one value common to all samples (e.g. the block-wide maximum) before exponentiating: a sample whose log-density lies more than ~745 below that value underflows to 0 and gets log-likelihood -inf; the shift must be taken per sample (over the component axis only)")
         if a0.is_numlike and (a0.wild or (a0.u == ZERO and a0.s == 0)):
             return a0.copy(cval=None)
         if a0.is_unk:
@@ -518,7 +536,10 @@ def numpy_call(it, fn, d, e, env, argv, kw, args):
             sh = None
             if a.sh is not None and b.sh is not None and len(a.sh) == 2 and len(b.sh) == 2:
                 sh = (a.sh[0], b.sh[0])
-            return V("num", lf_scale(base.u, p), 0, sh, wild=base.wild)
+            r = V("num", lf_scale(base.u, p), 0, sh, wild=base.wild)
+            if a.sw is not None and b.sw is not None:
+                r.sw = 0 if (a.sw in (0, 1) and a.sw == b.sw) else "N"
+            return r
         return unk("cdist")
     if fn == "transpose":
         axv = kw.get("axes", argv[1] if len(argv) > 1 else None)
@@ -558,7 +579,29 @@ def numpy_call(it, fn, d, e, env, argv, kw, args):
         out = None
         for v in ops:
             out = v.copy(sh=()) if out is None else it.binop(ast.Mult(), out, v.copy(sh=()), e)
-        return out.copy(sh=None) if out is not None and out.is_numlike else unk("einsum")
+        if out is None or not out.is_numlike:
+            return unk("einsum")
+        spec = argv[0].note if argv and argv[0].k == "str" else None
+        sh = None
+        if spec and "->" in spec:
+            ins, outl = spec.replace(" ", "").split("->")
+            ins = ins.split(",")
+            kinds = {}
+            ok = len(ins) == len(ops)
+            for letters, v in zip(ins, ops):
+                if v.sh is None or len(letters) != len(v.sh):
+                    ok = False
+                    break
+                for l_, k_ in zip(letters, v.sh):
+                    if l_ in kinds and kinds[l_] != k_ and "?" not in (k_, kinds[l_]) and "1" not in (k_, kinds[l_]):
+                        it.violation("DIM.SHAPE", e, f"einsum index `{l_}` pairs axis kinds {kinds[l_]} and {k_}")
+                    kinds.setdefault(l_, k_)
+            if ok:
+                sh = tuple(kinds.get(l_, "?") for l_ in outl)
+                contracted = set("".join(ins)) - set(outl)
+                if it.c.track_s and any(kinds.get(l_) == "N" for l_ in contracted):
+                    out = out.copy(s=out.s + 1)
+        return out.copy(sh=sh)
     if fn == "outer":
         if len(argv) >= 2 and (argv[0].is_unk or argv[1].is_unk):
             return unk("outer with an untyped operand")
